@@ -42,7 +42,7 @@ class IOOpsMixin:
             if src not in self.stored[client]:
                 raise LookupError("no-stored-output")
             in_text = self.stored[client][src]
-            path = os.path.join(self._cwd_of(client), f"_{src}.dat")
+            path = os.path.join(self._cwd_of(client), f"_{client}_{src}.dat")
             S.write_text(path, in_text)     # the user saved the earlier output to a file: the driver's write, not cij's
             self.driver_writes = getattr(self, "driver_writes", set()) | {os.path.relpath(path, self.root)}
         if not op.get("abs", True):
